@@ -115,12 +115,23 @@ static void reset_script(void)
 
 /* ------------------------------------------------------------------- trace */
 static int outfd = 1;
+static int in_child;
+static long nevents;
+#define EVENT_CAP 12000		/* per execution; correct code stays far below */
 
 static void ev(const char *fmt, ...)
 {
 	char b[512];
 	va_list ap;
 	int n;
+
+	if (in_child && ++nevents > EVENT_CAP) {
+		/* the code under test loops without making progress */
+		static const char end[] = "{\"e\":\"End\",\"why\":\"runaway\",\"sig\":0}\n";
+		if (__real_write(outfd, end, sizeof end - 1) < 0)
+			_exit(3);
+		_exit(0);
+	}
 
 	va_start(ap, fmt);
 	n = vsnprintf(b, sizeof b - 2, fmt, ap);
@@ -458,7 +469,7 @@ static int pump_once(struct iv_fd_pump *ip)
 	return ret;
 }
 
-#define CALL_CAP 3000
+#define CALL_CAP 1500
 
 /* returns the End reason */
 static const char *run_session(int si)
@@ -664,6 +675,7 @@ int main(int argc, char **argv)
 				return 2;
 			}
 			if (pid == 0) {
+				in_child = 1;
 				alarm(timeout_s);
 				run_script();
 				_exit(0);
